@@ -344,6 +344,9 @@ def generate(rng, index, tier, extra):  # pylint: disable=unused-argument
             ops.append({'op': op})
             if op == 'clear':
                 length = 0
+    if info['kind'] != 'list' and rng.random() < 0.25:
+        # a wrong-valued item offered somewhere in the history
+        ops.insert(rng.randrange(len(ops) + 1), {'op': 'append', 'item': 0, 'bad': rng.choice(('big', 'neg', 'str', 'float'))})
     for op in ops:
         if 'items' in op and rng.random() < 0.3:
             op['as'] = rng.choice(('tuple', 'iter', 'gen'))
@@ -558,6 +561,33 @@ def execute(doc):  # pylint: disable=too-many-branches,too-many-statements
             elif vector is twin_vector:
                 twin_model = model
                 vector, model = primary_vector, primary_model
+        if op.get('bad'):
+            # an item of the wrong value / type is offered (a caller's mistake): the vector may take it (it is taken
+            # out again at once) or refuse it - a refused edit changes nothing, the byte counter included
+            bad = {'big': 1 << 72, 'neg': -1, 'str': 'x', 'float': 1.5}[op['bad']]
+            before = list(vector)
+            try:
+                vector.append(bad)
+                taken = True
+            except (core.RunTimeout, KeyboardInterrupt, SystemExit, core.HarnessError):
+                raise
+            except BaseException as raised:  # pylint: disable=broad-except
+                taken = False
+                res.event(name, 'append-bad', 'raised:' + type(raised).__name__, len(vector))
+            res.stats['fault.bad_item_offered'] += 1
+            if taken:
+                res.event(name, 'append-bad', 'ok', len(vector))
+                try:
+                    vector.pop()
+                except BaseException:  # pylint: disable=broad-except
+                    del vector._items[-1:]  # pylint: disable=protected-access
+            if not _same(list(vector), before):
+                res.violation((PROPERTY, 'failed-edit-changed-vector', name, 'append-bad'),
+                              'a refused or failed edit changes nothing', 'op %d %r' % (step, op))
+                ok = False
+                break
+            outcomes.append('bad-item')
+            continue
         new_model = list(model)
         try:
             model_value = _apply(new_model, op, pool)
